@@ -771,3 +771,171 @@ func c19everyPrivilege(c *an.Ctx) {
 		}
 	}
 }
+
+func init() {
+	old := All["C19"].Run
+	All["C19"].Run = func(c *an.Ctx) {
+		old(c)
+		c19authorizeFirst(c)
+		c19lostGrantUpdate(c)
+	}
+	All["C19"].Rules += " R9 R10"
+}
+
+// c19authorizeFirst — C19.R9.  A write handler that authorises the user against the target
+// database does so BEFORE it hands the request to anything that acts on it: another serve*
+// method of the handler (a sub-dispatch such as the Prometheus metadata write) or the points
+// writer.  A dispatch placed above the check serves that kind of request for every
+// authenticated user, whatever the privileges.
+func c19authorizeFirst(c *an.Ctx) {
+	const H = "lib/util/lifted/influx/httpd"
+	r := c.Rule("C19.R9", "K-ORDER", H+": in every handler that calls WriteAuthorizer.AuthorizeWrite, the check (success edge) precedes every sub-dispatch to a serve* method and every use of the points writer, unless authentication is disabled")
+	auth := obj(r, H+":Handler.WriteAuthorizer")
+	if auth == nil {
+		return
+	}
+	n := 0
+	for _, d := range c.P.AllDecls() {
+		if !an.InPkg(d, H) {
+			continue
+		}
+		f := c.P.Fn(d)
+		if f == nil {
+			continue
+		}
+		az := f.Find(an.MNode("WriteAuthorizer.AuthorizeWrite(user, db)", func(g *an.Fn, m ast.Node) bool {
+			ce, ok := m.(*ast.CallExpr)
+			if !ok {
+				return false
+			}
+			sel, ok := ce.Fun.(*ast.SelectorExpr)
+			if !ok || sel.Sel.Name != "AuthorizeWrite" {
+				return false
+			}
+			inner, ok := ast.Unparen(sel.X).(*ast.SelectorExpr)
+			return ok && g.Info.Uses[inner.Sel] == auth
+		}))
+		if az.Len() == 0 {
+			continue
+		}
+		acts := f.Find(an.MNode("sub-dispatch (h.serve…) or points writer call", func(g *an.Fn, m ast.Node) bool {
+			ce, ok := m.(*ast.CallExpr)
+			if !ok {
+				return false
+			}
+			sel, ok := ce.Fun.(*ast.SelectorExpr)
+			if !ok {
+				return false
+			}
+			if strings.HasPrefix(sel.Sel.Name, "serve") {
+				if fn := an.Callee(g.Info, ce); fn != nil && fn.Pkg() != nil && strings.HasSuffix(fn.Pkg().Path(), H) {
+					return true
+				}
+			}
+			if inner, ok := ast.Unparen(sel.X).(*ast.SelectorExpr); ok && inner.Sel.Name == "PointsWriter" {
+				return true
+			}
+			return false
+		}))
+		n += az.Len()
+		if acts.Len() == 0 {
+			continue
+		}
+		f.Precedes(r, az, acts, an.OrderOpt{Success: true, Label: "AuthorizeWrite(success) ≺ sub-dispatch / points writer", Unless: []an.AtomPred{an.AtomLike(`^recv\.Config\.AuthEnabled$`, false)}})
+	}
+	r.AddSites(n)
+	r.Floor(4, "handlers that authorise writes")
+}
+
+// c19lostGrantUpdate — C19.R10.  Users and their per-database privileges live in the catalogue
+// slice Data.Users ([]UserInfo, values).  `for _, u := range data.Users { u.Privileges = … }`
+// updates a copy: the catalogue keeps the old grants.  A grant that survives DROP DATABASE is a
+// grant on whatever database is created under that name next.  Rule: in the catalogue package
+// no field of a by-value range variable over Data.Users is assigned (unless the element is
+// written back), and DropDatabase still removes the database from every user's privileges.
+func c19lostGrantUpdate(c *an.Ctx) {
+	const M = "lib/util/lifted/influx/meta"
+	r := c.Rule("C19.R10", "K-IDIOM", M+": updates of a user's privileges reach the catalogue entry (no assignment to a by-value range copy of Data.Users); DropDatabase revokes the dropped database from every user")
+	users := obj(r, M+":Data.Users")
+	priv := obj(r, M+":UserInfo.Privileges")
+	if r.Failed() {
+		return
+	}
+	n := 0
+	for _, d := range c.P.AllDecls() {
+		if !an.InPkg(d, M) {
+			continue
+		}
+		info := d.Pkg.TypesInfo
+		ast.Inspect(d.Decl.Body, func(m ast.Node) bool {
+			rs, ok := m.(*ast.RangeStmt)
+			if !ok || rs.Value == nil {
+				return true
+			}
+			sel, ok := ast.Unparen(rs.X).(*ast.SelectorExpr)
+			if !ok || info.Uses[sel.Sel] != users {
+				return true
+			}
+			vid, ok := rs.Value.(*ast.Ident)
+			if !ok || vid.Name == "_" {
+				return true
+			}
+			vobj := info.Defs[vid]
+			n++
+			writtenBack := false
+			var lost []ast.Node
+			ast.Inspect(rs.Body, func(k ast.Node) bool {
+				as, ok := k.(*ast.AssignStmt)
+				if !ok {
+					return true
+				}
+				for i, l := range as.Lhs {
+					if ls, ok := ast.Unparen(l).(*ast.SelectorExpr); ok {
+						if id, ok := ast.Unparen(ls.X).(*ast.Ident); ok && info.Uses[id] == vobj {
+							lost = append(lost, as)
+						}
+					}
+					if ix, ok := ast.Unparen(l).(*ast.IndexExpr); ok && i < len(as.Rhs) {
+						if bs, ok := ast.Unparen(ix.X).(*ast.SelectorExpr); ok && info.Uses[bs.Sel] == users {
+							if id, ok := ast.Unparen(as.Rhs[i]).(*ast.Ident); ok && info.Uses[id] == vobj {
+								writtenBack = true
+							}
+						}
+					}
+				}
+				return true
+			})
+			if !writtenBack {
+				for _, l := range lost {
+					r.Fail(d.Name()+": update of a range copy of Data.Users", c.P.Pos(l.Pos()), "%s assigns a field of the by-value loop variable over Data.Users and never writes the element back: the catalogue entry keeps its old value (grants are not revoked)", d.Name())
+				}
+			}
+			return true
+		})
+	}
+	if f := fn(r, M+":Data.DropDatabase"); f != nil {
+		revoke := f.Find(an.MNode("delete(<user>.Privileges, name) / <user>.Privileges = …", func(g *an.Fn, m ast.Node) bool {
+			switch x := m.(type) {
+			case *ast.CallExpr:
+				if id, ok := x.Fun.(*ast.Ident); ok && id.Name == "delete" && len(x.Args) == 2 {
+					if s, ok := ast.Unparen(x.Args[0]).(*ast.SelectorExpr); ok && g.Info.Uses[s.Sel] == priv {
+						return true
+					}
+				}
+			case *ast.AssignStmt:
+				for _, l := range x.Lhs {
+					if s, ok := ast.Unparen(l).(*ast.SelectorExpr); ok && g.Info.Uses[s.Sel] == priv {
+						return true
+					}
+				}
+			}
+			return false
+		}))
+		n += revoke.Len()
+		if revoke.Len() == 0 {
+			r.Fail(f.Name+": privileges kept", c.P.Pos(f.Body.Pos()), "DropDatabase no longer removes the dropped database from the users' privileges")
+		}
+	}
+	r.AddSites(n)
+	r.Floor(1, "privilege update sites")
+}
